@@ -102,6 +102,7 @@ pub fn entries() -> &'static Vec<Entry> {
             entry::<RegionSut<OptSliceStr>>(),
             entry::<RegionSut<Bench>>(),
             entry::<RegionSut<OptSliceU128>>(),
+            entry::<RegionSut<ColsCodec>>(),
             entry::<RegionSut<ColsI128>>(),
             entry::<RegionSut<HuffU8>>(),
             entry::<RegionSut<HuffU16>>(),
